@@ -353,8 +353,8 @@ func init() {
 			}
 		}
 		for _, x := range []float64{0, math.Copysign(0, -1), 1, -1, 0.5, 1.5, 1e-300, -1e-300, 2, 1000, 1023.999, 1024, 1 << 24, 1<<24 + 1, 1 << 53, 1<<53 + 2, 1<<53 - 1, 1 << 62, 1 << 63, 18446744073709549568, 18446744073709551616, 1e19, 1e20, 1e30, 1e300, math.MaxFloat64, math.Inf(1), math.Inf(-1), math.NaN(), 17.0, 16.0, 15.99, 18014398509481984, 18014398509481982, 17592186044416, math.SmallestNonzeroFloat64} {
-				cases = append(cases, nc{"float64", f64(x)}, nc{"myFloat64", f64(x)})
-			}
+			cases = append(cases, nc{"float64", f64(x)}, nc{"myFloat64", f64(x)})
+		}
 		for _, x := range []float32{0, 1, -1, 0.5, 1.5, 2, 1000, 1024, 1 << 24, 1<<24 + 2, 1 << 31, 1 << 62, 1 << 63, 18446742974197923840, 18446744073709551616, 1e30, math.MaxFloat32, float32(math.Inf(1)), float32(math.Inf(-1)), float32(math.NaN()), 16, 15, 17, math.SmallestNonzeroFloat32} {
 			cases = append(cases, nc{"float32", f32(x)}, nc{"myFloat32", f32(x)})
 		}
